@@ -2,7 +2,8 @@
 
    All theorems are about the labelled transition system Model/Executor.v (labels = lock-delimited regions
    of internal/executor/executor.go) and quantify over ALL traces [steps c init tr s]: any interleaving of
-   the labels, any number of workers, tasks and keys.  The event log [log s] is newest-first:
+   the labels, any number of workers, tasks and keys (the label LRot lets a worker receive any queued task, not
+   only the oldest: the deferred function sends ready tasks in Go map order).  The event log [log s] is newest-first:
    [log s = l1 ++ e :: l2] means that the events of l2 happened before e and those of l1 after e.
 
    [cfg_ok c] is the constructor's contract as far as the model needs it:
@@ -13,7 +14,7 @@
    C08_contract_needed shows that the first condition cannot be dropped. *)
 From Coq Require Import List NArith ZArith Bool Arith.
 Import ListNotations.
-From HV Require Import Model.Executor Proofs.Executor_proofs.
+From HV Require Import Model.Executor Proofs.Executor_proofs Model.ExecutorAccept Proofs.ExecutorAccept_proofs.
 
 (* No double enqueue and no write to the blocked map of an executed task, ever. *)
 Theorem C08_no_broken : forall c tr s, cfg_ok c -> steps c init tr s -> broken s = false.
@@ -173,3 +174,29 @@ Definition bad_tr : list label :=
 Example C08_contract_needed : exists s, steps bad_c init bad_tr s /\ broken s = true /\
   log s = [EvBegin 1; EvEnd 1 true; EvBegin 1; EvEnd 0 true; EvBegin 0].
 Proof. apply run_labels_witness. vm_compute. split; reflexivity. Qed.
+
+(* ---- the tie to the Go code: trace inclusion ------------------------------------------------------ *)
+(* Check/C08_check.v accepts an event trace observed from the real executor only if [accepts]
+   (Model/ExecutorAccept.v) returns true for it.  Soundness of that acceptor: an accepted trace [evs] is the
+   visible part ([obs_of]) of a run [its] of the instrumented LTS (labels of Model/Executor.v interleaved with the
+   driver's stamps, each stamp guarded by the LTS state it can be taken in), and the label part of that run is a
+   run [steps] of the LTS all the theorems above quantify over. *)
+Theorem C08_trace_inclusion_sound : forall c evs, accepts c evs = true ->
+  exists its o, orun c oinit its = Some o /\ obs_of its = evs /\ steps c init (labels_of its) (o_s o).
+Proof. exact accepts_sound. Qed.
+Print Assumptions C08_trace_inclusion_sound.
+
+(* non-vacuity: two writers of one key, serialised, are accepted; overlapped they are not; one worker may start
+   the two readers that a writer's deferred function released in either order (Go map order, label LRot) *)
+Definition ti_c : cfg := mkC [[(0%N,5%N)]; [(0%N,5%N)]] 100000000 2.
+Example C08_trace_inclusion_ex :
+  accepts ti_c [ORun 0; OBeg 0; ORun 1; OEnd 0 true; OBeg 1; OEnd 1 true; OSeen 0; OWaitCall; OWaitRet 0] = true.
+Proof. vm_compute. reflexivity. Qed.
+Example C08_trace_inclusion_ex_rejected :
+  accepts ti_c [ORun 0; OBeg 0; ORun 1; OBeg 1; OEnd 0 true; OEnd 1 true; OSeen 0; OWaitCall; OWaitRet 0] = false.
+Proof. vm_compute. reflexivity. Qed.
+Example C08_trace_inclusion_ex_map_order :
+  accepts (mkC [[(0%N,5%N)]; [(0%N,1%N)]; [(0%N,1%N)]] 100000000 1)
+          [ORun 0; ORun 1; ORun 2; OBeg 0; OEnd 0 true; OBeg 2; OEnd 2 true; OBeg 1; OEnd 1 true;
+           OWaitCall; OWaitRet 0] = true.
+Proof. vm_compute. reflexivity. Qed.
